@@ -6,6 +6,7 @@
 #ifndef CONTRACTS_BITS_H
 #define CONTRACTS_BITS_H
 #include "spec/spec.h"
+#include "rtrlib/lib/ip_private.h"
 
 /* lrtr_get_bits(val, from, number): bits [from, from+number) of val, others zero.
  * Well-defined (no undefined shift, spec holds) for from <= 31, number <= 32; number == 0 yields 0;
@@ -38,38 +39,99 @@ __CPROVER_ensures(__CPROVER_return_value.addr[2] == GETBITS6_SPEC_W(val->addr, f
 __CPROVER_ensures(__CPROVER_return_value.addr[3] == GETBITS6_SPEC_W(val->addr, first_bit, quantity, 3))
 __CPROVER_assigns();
 
-/* ---- struct lrtr_ip_addr level (ip.c).  ver is a type invariant: LRTR_IPV4 or LRTR_IPV6. ---- */
+/* ---- struct lrtr_ip_addr level (ip.c).  ver is a type invariant: LRTR_IPV4 or LRTR_IPV6. ----
+ * Contracts dereference each pointer ONCE and hand values to pure spec functions: every syntactic
+ * dereference in a contract clause costs a full set of pointer checks at every call site. */
 #define IPVER_OK(v) ((v) == LRTR_IPV4 || (v) == LRTR_IPV6)
 #define IP_GETBITS_PRE(ver, from, n) ((ver) == LRTR_IPV6 ? GETBITS6_PRE(from, n) : GETBITS_PRE(from, n))
-#define IP_GETBITS_POST(r, val, from, n)                                                               \
-	((r).ver == (val)->ver &&                                                                      \
-	 ((val)->ver == LRTR_IPV6                                                                      \
-		  ? ((r).u.addr6.addr[0] == GETBITS6_SPEC_W((val)->u.addr6.addr, from, n, 0) &&        \
-		     (r).u.addr6.addr[1] == GETBITS6_SPEC_W((val)->u.addr6.addr, from, n, 1) &&        \
-		     (r).u.addr6.addr[2] == GETBITS6_SPEC_W((val)->u.addr6.addr, from, n, 2) &&        \
-		     (r).u.addr6.addr[3] == GETBITS6_SPEC_W((val)->u.addr6.addr, from, n, 3))          \
-		  : (r).u.addr4.addr == GETBITS_SPEC((val)->u.addr4.addr, from, n)))
+
+static inline bool spec_ip_eq(const struct lrtr_ip_addr a, const struct lrtr_ip_addr b)
+{
+	if (a.ver != b.ver)
+		return false;
+	if (a.ver == LRTR_IPV6)
+		return a.u.addr6.addr[0] == b.u.addr6.addr[0] && a.u.addr6.addr[1] == b.u.addr6.addr[1] &&
+		       a.u.addr6.addr[2] == b.u.addr6.addr[2] && a.u.addr6.addr[3] == b.u.addr6.addr[3];
+	return a.u.addr4.addr == b.u.addr4.addr;
+}
+
+static inline bool spec_ip_is_zero(const struct lrtr_ip_addr p)
+{
+	if (p.ver == LRTR_IPV6)
+		return p.u.addr6.addr[0] == 0 && p.u.addr6.addr[1] == 0 && p.u.addr6.addr[2] == 0 && p.u.addr6.addr[3] == 0;
+	return p.u.addr4.addr == 0;
+}
+
+/* the value of extracting bits [from, from+n) (spec) */
+static inline struct lrtr_ip_addr spec_ip_getbits(const struct lrtr_ip_addr v, uint8_t from, uint8_t n)
+{
+	struct lrtr_ip_addr r;
+
+	if (v.ver == LRTR_IPV6) {
+		struct lrtr_ip_addr r6 = {.ver = LRTR_IPV6,
+					  .u.addr6.addr = {GETBITS6_SPEC_W(v.u.addr6.addr, from, n, 0),
+							   GETBITS6_SPEC_W(v.u.addr6.addr, from, n, 1),
+							   GETBITS6_SPEC_W(v.u.addr6.addr, from, n, 2),
+							   GETBITS6_SPEC_W(v.u.addr6.addr, from, n, 3)}};
+		r = r6;
+	} else {
+		struct lrtr_ip_addr r4 = {.ver = v.ver, .u.addr4.addr = GETBITS_SPEC(v.u.addr4.addr, from, n)};
+		r = r4;
+	}
+	return r;
+}
+static inline bool spec_ip_getbits_is(const struct lrtr_ip_addr r, const struct lrtr_ip_addr v, uint8_t from, uint8_t n)
+{
+	return spec_ip_eq(r, spec_ip_getbits(v, from, n));
+}
+#define IP_GETBITS_POST(r, val, from, n) spec_ip_getbits_is(r, *(val), from, n)
+#define IP_IS_ZERO_SPEC(p) spec_ip_is_zero(p)
+#define IP_EQUAL_SPEC(a, b) spec_ip_eq(a, b)
+
+/*
+ * Each contract below exists in two forms generated from the same PRE / SPEC text:
+ *   - the CBMC contract on the re-declaration (enforced on the real body by the L0 units,
+ *     usable with --replace-call-with-contract);
+ *   - with -DSTUB_IP, an executable form  { assert(PRE); return SPEC; }  that stands in for the body in
+ *     units that do not link ip.c.  It is the contract replacement done by hand: DFCC's own replacement
+ *     allocates several bookkeeping objects per call site, and every dereference of a pointer havocked
+ *     by a loop contract enumerates all objects of the program.
+ */
+#ifndef STUB_IP
 struct lrtr_ip_addr lrtr_ip_addr_get_bits(const struct lrtr_ip_addr *val, const uint8_t from, const uint8_t number)
 __CPROVER_requires(__CPROVER_r_ok(val, sizeof(*val)) && IPVER_OK(val->ver) && IP_GETBITS_PRE(val->ver, from, number))
-__CPROVER_ensures(IP_GETBITS_POST(__CPROVER_return_value, val, from, number))
+__CPROVER_ensures(spec_ip_getbits_is(__CPROVER_return_value, *val, from, number))
 __CPROVER_assigns();
 
-#define IP_IS_ZERO_SPEC(p)                                                                             \
-	((p).ver == LRTR_IPV6 ? ((p).u.addr6.addr[0] == 0 && (p).u.addr6.addr[1] == 0 && (p).u.addr6.addr[2] == 0 && (p).u.addr6.addr[3] == 0) \
-			      : (p).u.addr4.addr == 0)
 bool lrtr_ip_addr_is_zero(const struct lrtr_ip_addr prefix)
 __CPROVER_requires(IPVER_OK(prefix.ver))
-__CPROVER_ensures(__CPROVER_return_value == IP_IS_ZERO_SPEC(prefix))
+__CPROVER_ensures(__CPROVER_return_value == spec_ip_is_zero(prefix))
 __CPROVER_assigns();
 
-#define IP_EQUAL_SPEC(a, b)                                                                            \
-	((a).ver == (b).ver &&                                                                         \
-	 ((a).ver == LRTR_IPV6 ? ((a).u.addr6.addr[0] == (b).u.addr6.addr[0] && (a).u.addr6.addr[1] == (b).u.addr6.addr[1] && \
-				  (a).u.addr6.addr[2] == (b).u.addr6.addr[2] && (a).u.addr6.addr[3] == (b).u.addr6.addr[3]) \
-			       : (a).u.addr4.addr == (b).u.addr4.addr))
 bool lrtr_ip_addr_equal(const struct lrtr_ip_addr a, const struct lrtr_ip_addr b)
 __CPROVER_requires(IPVER_OK(a.ver) && IPVER_OK(b.ver))
-__CPROVER_ensures(__CPROVER_return_value == IP_EQUAL_SPEC(a, b))
+__CPROVER_ensures(__CPROVER_return_value == spec_ip_eq(a, b))
 __CPROVER_assigns();
+#else
+struct lrtr_ip_addr lrtr_ip_addr_get_bits(const struct lrtr_ip_addr *val, const uint8_t from, const uint8_t number)
+{
+	const struct lrtr_ip_addr v = *val;
+
+	__CPROVER_assert(IPVER_OK(v.ver) && IP_GETBITS_PRE(v.ver, from, number), "precondition of lrtr_ip_addr_get_bits (contract, see contracts/bits.h)");
+	return spec_ip_getbits(v, from, number);
+}
+
+bool lrtr_ip_addr_is_zero(const struct lrtr_ip_addr prefix)
+{
+	__CPROVER_assert(IPVER_OK(prefix.ver), "precondition of lrtr_ip_addr_is_zero (contract)");
+	return spec_ip_is_zero(prefix);
+}
+
+bool lrtr_ip_addr_equal(const struct lrtr_ip_addr a, const struct lrtr_ip_addr b)
+{
+	__CPROVER_assert(IPVER_OK(a.ver) && IPVER_OK(b.ver), "precondition of lrtr_ip_addr_equal (contract)");
+	return spec_ip_eq(a, b);
+}
+#endif
 
 #endif
